@@ -172,8 +172,11 @@ where
     /// Initialize the radio for LoRa physical layer communications
     pub async fn init(&mut self) -> Result<(), RadioError> {
         self.cold_start = true;
+        // Nothing prepared earlier survives the reset. Until standby has been entered again the chip is treated as
+        // asleep, so that after a failure half-way the next operation wakes it and forces standby first.
+        let mode_before_reset = core::mem::replace(&mut self.radio_mode, RadioMode::Sleep);
         self.radio_kind.reset(&mut self.delay).await?;
-        self.radio_kind.ensure_ready(self.radio_mode).await?;
+        self.radio_kind.ensure_ready(mode_before_reset).await?;
         self.radio_kind.set_standby().await?;
         self.radio_mode = RadioMode::Standby;
         self.do_cold_start().await
